@@ -21,22 +21,36 @@ from .common import world, pmap, short, configs_for
 BUF = ("param", "string")
 
 
-def find_tlv_readers(p):
-    """functions of der.py that call read_length on <first parameter>[1:] : (func, lenvar, llenvar)"""
+def find_tlv_readers(p, lite=None):
+    """the TLV readers of der.py: public remove_* functions that obtain their length octets
+    through read_length (directly or through a private helper of der.py): (func, None, None)"""
     out = []
     m = p.modules["der"]
     for f in m.funcs.values():
-        if f.cls or "." in f.qual or not f.params:
+        if f.cls or "." in f.qual or not f.params or not f.qual.startswith("remove_"):
             continue
+        direct = any(isinstance(n, ast.Call) and isinstance(n.func, ast.Name) and n.func.id == "read_length" for n in ast.walk(f.node))
+        via = False
         for n in ast.walk(f.node):
-            if isinstance(n, ast.Assign) and isinstance(n.value, ast.Call) and isinstance(n.value.func, ast.Name) \
-                    and n.value.func.id == "read_length" and len(n.targets) == 1 and isinstance(n.targets[0], ast.Tuple) \
-                    and len(n.targets[0].elts) == 2 and all(isinstance(e, ast.Name) for e in n.targets[0].elts):
-                a = n.value.args[0] if n.value.args else None
-                if isinstance(a, ast.Subscript) and isinstance(a.value, ast.Name) and a.value.id == f.params[0] \
-                        and isinstance(a.slice, ast.Slice) and isinstance(a.slice.lower, ast.Constant) and a.slice.lower.value == 1 and a.slice.upper is None:
-                    out.append((f, n.targets[0].elts[0].id, n.targets[0].elts[1].id))
+            if isinstance(n, ast.Call) and isinstance(n.func, ast.Name) and n.func.id.startswith("_") and n.func.id in m.funcs:
+                via |= any(isinstance(x, ast.Call) and isinstance(x.func, ast.Name) and x.func.id == "read_length" for x in ast.walk(m.funcs[n.func.id].node))
+        if direct or via:
+            out.append((f, None, None))
     return out
+
+
+def length_pair(it, s):
+    """(length, llen) read by read_length(buf[1:]) on the path of return state s, by role: the
+    result of the read_length call whose argument is the input buffer without its tag octet"""
+    hs = s.cons._hset()
+    want = ("slice", BUF, Lin.const(1).key(), None)
+    for caller, site, cargs, ckw, st0, res in it.watch_results.get("der:read_length", ()):
+        if not cargs or not isinstance(cargs[0], VBytes) or cargs[0].t != want:
+            continue
+        for v, st1 in res:
+            if isinstance(v, VTuple) and len(v.items) == 2 and all(isinstance(x, VInt) for x in v.items) and set(l.h() for l in st1.cons.ges) <= hs:
+                return v.items[0], v.items[1]
+    return None, None
 
 
 _SUB_MEMO = {}
@@ -94,6 +108,9 @@ def new_interp(W):
     it = W.interp()
     it.entry_merge_limit = None
     it.return_merge_limit = 64
+    # private helpers of der.py are analysed in the frame of the reader that calls them
+    it.flat_callees = {f.qname for f in W.p.modules["der"].funcs.values() if f.node.name.startswith("_") and not f.node.name.startswith("__")}
+    it.watch_results["der:read_length"] = []
     return it
 
 
@@ -119,13 +136,12 @@ def analyse_reader(args):
     blen = Lin.sym(("len", BUF))
     for v, s in it.watch_returns[qname]:
         res["returns"] += 1
-        length = s.env.get(lenvar)
-        llen = s.env.get(llenvar)
+        length, llen = length_pair(it, s)
         if not isinstance(length, VInt) or not isinstance(llen, VInt):
             res["checks"].append(("d", False, "length/llen variables are not integers at return"))
             continue
         H = llen.lin + length.lin + 1
-        res["checks"].append(("d", s.proves_ge(blen - H), "declared length within buffer: len(buf) >= 1 + %s + %s" % (llenvar, lenvar)))
+        res["checks"].append(("d", s.proves_ge(blen - H), "declared length within buffer: len(buf) >= 1 + llen + length"))
         res["checks"].append(("d0", s.proves_ge(length.lin) and s.proves_ge(llen.lin - 1), "length >= 0 and llen >= 1"))
         # remainder = last component of the returned tuple
         rest = v.items[-1] if isinstance(v, VTuple) and v.items else None
@@ -220,9 +236,11 @@ def q_remove_integer(cfg):
     readers = [x for x in find_tlv_readers(W.p) if x[0].qname == q]
     if not readers:
         raise AnalysisError("remove_integer no longer reads its length with read_length(buf[1:])")
-    _f, lenvar, llenvar = readers[0]
     for v, s in it.watch_returns[q]:
-        length, llen = s.env[lenvar].lin, s.env[llenvar].lin
+        length, llen = length_pair(it, s)
+        if length is None:
+            raise AnalysisError("%s: the read_length(buf[1:]) result of a return path was not found" % q)
+        length, llen = length.lin, llen.lin
         body = ("slice", BUF, (llen + 1).key(), (llen + length + 1).key())
         m0, m1 = byte_sym(body, 0), byte_sym(body, 1)
         out.append(("nonempty", s.proves_ge(length - 1), "zero-length INTEGER rejected"))
@@ -244,7 +262,6 @@ def q_remove_bitstring(cfg):
     readers = [x for x in find_tlv_readers(W.p) if x[0].qname == q]
     if not readers:
         raise AnalysisError("remove_bitstring no longer reads its length with read_length(buf[1:])")
-    _f, lenvar, llenvar = readers[0]
     for mode, ev in (("expect=0", VInt(0)), ("expect=None", VConst(None)), ("expect=k", VInt(Lin.sym(("param", "expect"))))):
         it = new_interp(W)
         it.watch_returns[q] = []
@@ -252,7 +269,10 @@ def q_remove_bitstring(cfg):
         esc += [(r.exc, short(r.site), r.witness()[:300], r.site[2][:80]) for r in raises if r.exc != "UnexpectedDER"]
         for v, s in it.watch_returns[q]:
             nret += 1
-            length, llen = s.env[lenvar].lin, s.env[llenvar].lin
+            length, llen = length_pair(it, s)
+            if length is None:
+                raise AnalysisError("%s: the read_length(buf[1:]) result of a return path was not found" % q)
+            length, llen = length.lin, llen.lin
             body = ("slice", BUF, (llen + 1).key(), (llen + length + 1).key())
             un = byte_sym(body, 0)
             out.append((mode + ":nonempty", s.proves_ge(length - 1), "zero-length BIT STRING rejected"))
